@@ -23,7 +23,7 @@ type sim struct{}
 func init() { core.Register(sim{}) }
 
 func (sim) Name() string        { return "walletsim" }
-func (sim) Props() []string     { return []string{"C09", "C15", "C20", "C06", "C16", "C04"} }
+func (sim) Props() []string     { return []string{"C09", "C15", "C20", "C06", "C16", "C04", "C01", "C03", "C05", "C08"} }
 func (sim) Level(string) string { return "exploration" }
 func (sim) Rule(prop string) string {
 	switch prop {
@@ -37,6 +37,10 @@ func (sim) Rule(prop string) string {
 		return "C06: a case is (wallet history: receipts on all four default address types and two accounts, coinbase credits near maturity, locks, leases, clock, blocks, reorgs; requests: SendOutputs / dry CreateSimpleTx / SendOutputsWithInput with eligible and ineligible explicit inputs, random outputs, fee rates, minconf, scope, account, selection strategy; 1-4 concurrent senders)."
 	case "C20":
 		return "C20: a case is (wallet history of receipts, sends incl. chained unconfirmed ones, built-then-published transactions, leases, blocks, restarts; at every broadcast — initial and each re-broadcast after a restart — a backend answer class: accepted, already in mempool, already confirmed, rejected (fee / generic / conflict), transport error, subscription failure)."
+	case "C03", "C05", "C08":
+		return prop + " (wallet level): a case is (addresses on the default scopes, optional receipts, then a mix of account-import previews (ImportAccountDryRun: seven key-version x address-type variants, 1-4 foreign keys), real imports (often into the scope just previewed with another key or format), NextAccount, addresses of own and imported accounts, dry-run sends, renames, wallet lock / account operations while locked / unlock, restarts, blocks, restart observations, private-key checks)."
+	case "C01":
+		return "C01 (wallet level): a case is (the C06 or the C15 workload — receipts on four address types and two accounts, coinbases near maturity, wallet-authored sends, locks, leases, clock, blocks, reorgs, invalidated and reconsidered blocks, delivery lag, restarts); after every operation, with the wallet idle, CalculateBalance / ListUnspent / CalculateAccountBalances are compared with the statement evaluated over the wallet's own known transaction set."
 	case "C15":
 		return "C15: a case is (chain evolution: extensions, reorgs of depth 1..D, stale/repeated notifications, delivery lag, wallet stop/restart phases while the node moves, backend call failures; wallet transactions placed in the affected blocks)."
 	}
@@ -74,6 +78,11 @@ func (sim) Explain(prop string, st map[string]int64) string {
 		probes = []string{"probe.rejection-with-other-unmined", "probe.chained-unconfirmed-send", "probe.already-in-mempool", "probe.already-confirmed",
 			"probe.rejection-of-recorded-tx", "probe.resend-with-unmined", "probe.resend-chain", "fault.backend-answer.transport", "fault.backend-answer.reject-fee",
 			"fault.backend-answer.reject-generic", "fault.backend-answer.reject-conflict", "fault.backend-answer.notify-received-fails", "fault.backend-answer.notify-received-2nd-fails", "probe.resend-rejected", "probe.rejection-with-recorded-child", "probe.resend-child-of-two-outputs-of-one-parent"}
+	case "C03", "C05", "C08":
+		probes = []string{"probe.account-import-preview", "probe.preview-while-locked", "probe.account-imported", "probe.import-after-preview", "probe.imported-address-checked",
+			"probe.restart-observations", "probe.next-address-compared", "probe.private-key-checked", "probe.private-access-while-locked"}
+	case "C01":
+		probes = []string{"probe.c01w-checked", "probe.c01w-with-leases", "probe.c01w-unconfirmed-credit", "probe.c01w-immature-coinbase", "probe.c01w-account-balances-checked"}
 	case "C15":
 		probes = []string{"probe.repeated-disconnect", "probe.reorg-back-to-known-blocks", "probe.chain-shortened", "probe.ops-during-initial-rescan", "probe.reorg-depth>1", "probe.reorg-with-wallet-tx", "probe.restart-tip-not-on-chain", "probe.stale-disconnect", "probe.reorg-equal-height", "probe.sync-after-backend-failure", "probe.node-moved-while-stopped"}
 	}
@@ -114,6 +123,10 @@ func (sim) Generate(prop, tier string, seed uint64) *core.Plan {
 		genC16(r, p)
 	case "C04":
 		genC04w(r, p)
+	case "C01":
+		genC01w(r, p)
+	case "C03", "C05", "C08":
+		genAcctW(r, p)
 	}
 	return p
 }
@@ -305,6 +318,7 @@ type runState struct {
 	errs    map[string]int
 	section int
 	renames int
+	previews, imports, obsN int
 }
 
 func (sim) Execute(env *core.Env, p *core.Plan) {
@@ -389,6 +403,9 @@ func (rs *runState) run() {
 			continue
 		}
 		rs.exec(0, i, op)
+		if x.prop == "C01" {
+			x.checkC01w(fmt.Sprintf("after op %d %s", i, op.K))
+		}
 	}
 	if !x.violated {
 		rs.final()
@@ -757,6 +774,7 @@ func (rs *runState) exec(task, step int, op core.Op) {
 				x.fail("restart-failed", "cannot reopen the wallet: %v", err)
 				return
 			}
+			x.lockedOps = map[wire.OutPoint]bool{} // LockOutpoint is in-memory state of the wallet
 			st := x.w.Manager.SyncedTo()
 			if b := x.node.BlockByHash(&st.Hash); b == nil || !x.node.OnBest(b) {
 				env.Count("probe.restart-tip-not-on-chain")
@@ -823,6 +841,36 @@ func (rs *runState) exec(task, step int, op core.Op) {
 		if x.running {
 			rs.importdry(step, op)
 		}
+	case "importdry2":
+		if x.running {
+			rs.importdry2(step, op)
+		}
+	case "importacct":
+		if x.running {
+			rs.importacct(step, op)
+		}
+	case "newaddri":
+		if x.running {
+			rs.newaddri(step, op)
+		}
+	case "renamei":
+		if x.running {
+			rs.renamei(step, op)
+		}
+	case "privcheck":
+		if x.running {
+			rs.privcheck(step, op)
+		}
+	case "wlock":
+		if x.running {
+			rs.wlock(step)
+		}
+	case "wunlock":
+		if x.running {
+			rs.wunlock(step)
+		}
+	case "observe":
+		rs.observe(step, op)
 	case "rename":
 		if x.running {
 			scope := scopes[int(uint64(op.Arg(0))%uint64(len(scopes)))]
